@@ -185,6 +185,11 @@ func (c04) Case(c *core.Ctx) {
 		mxj.XMLEscapeChars(true)
 	}
 	defer ResetDefaults()
+	if c.R.Intn(8) == 0 {
+		// the other spelling of empty elements (<a></a> instead of <a/>): documented to change nothing else
+		mxj.XmlGoEmptyElemSyntax()
+		c.Count("option:go-empty-element-syntax")
+	}
 	defer verifyKept(c, "c04-retained-output-changed")
 	c.Eval()
 	failedCalls(c, 8)
